@@ -44,6 +44,8 @@ func runC09(c *Ctx) {
 	c.Rule("C09.conditional", "internalDelete, leaf arm: f is called and deletion reported exactly on the true edge of condition(value); Delete passes a condition that is constantly true")
 	c.Rule("C09.select", "internalDelete: a leaf reached with len(subpath)==0, or with subpath == [\"*\"], is offered to the condition on every path (nothing returns before the terminal/glob test); a nil (empty) node is never offered to the condition")
 	c.Rule("C09.prune-guard", "internalDelete: delete(children, k) only after the recursive call for k returned true; the glob arm over a branch returns 'removable' iff the branch has no children left (0 => true, 1 => false), whether or not glob elements remain; the explicit-child arm returns removable iff the map became empty; WalkDeleted / DeleteConditional store leafBranch=nil only when internalDelete reported the root removable")
+	c.Rule("C09.returned-paths", "internalDelete with retDeletedPaths set: the paths reported by a child's visit can reach the accumulated result whether or not the child itself became removable (glob arm), and the explicit-child arm returns a non-nil list taken from the child's visit")
+	c.Rule("C09.walk-root", "Walk and WalkSorted (their unexported helpers inlined): a leaf stored at the root is handed to the visitor exactly once with its own value, an empty root is not visited")
 	c.Rule("C09.visit-once", "walkInternal, walkInternalSorted and enumerateChildren call the visitor at most once per activation, never inside a loop")
 	c.Rule("C09.path-copy", "walkInternal and walkInternalSorted pass to each child's visit a path built on a slice made inside the loop iteration (never an append onto the path parameter, whose spare capacity siblings would share)")
 
@@ -94,6 +96,9 @@ func runC09(c *Ctx) {
 				if a.V == subP {
 					return "SUBLEN"
 				}
+				if isNilConst(a.V) {
+					return "NILLEN"
+				}
 				if isNamed(a.V.Type(), "ctree", "branch") {
 					return "LENB"
 				}
@@ -117,6 +122,10 @@ func runC09(c *Ctx) {
 						return "!GLOB"
 					}
 				}
+			}
+		case *ssa.Parameter:
+			if len(id.Params) == 5 && v == id.Params[4] {
+				return "RET"
 			}
 		case *ssa.Extract:
 			if ta, ok := v.Tuple.(*ssa.TypeAssert); ok && v.Index == 1 && isNamed(ta.AssertedType, "ctree", "branch") {
@@ -241,6 +250,107 @@ func runC09(c *Ctx) {
 			c.Floor("C09.prune-guard/"+sc.name, nP, 1)
 		}
 	}
+	// returned paths
+	{
+		isAcc := func(ev *Ev) bool {
+			if ev.Label != "builtin:append" {
+				return false
+			}
+			call, ok := ev.In.(*ssa.Call)
+			return ok && call.Type().String() == "[][]string"
+		}
+		at := func(b map[string]bool, i map[string]int64) *PPA {
+			a := &Atoms{Class: cls, Bool: b, Int: i}
+			e := &PPA{Cond: a.Cond, MaxVisits: 3, Watch: func(ev *Ev) bool { return isRec(ev) || isAcc(ev) }}
+			e.Run(id)
+			c.Paths += len(e.Paths)
+			c.Scen++
+			return e
+		}
+		for _, rec := range []bool{true, false} {
+			// glob arm: some path carries a child's reported paths into the accumulator
+			e := at(map[string]bool{"ISBRANCH": true, "REC": rec, "RET": true, "GLOB": false}, map[string]int64{"SUBLEN": 0})
+			reach := false
+			nRec := 0
+			for i := range e.Paths {
+				p := &e.Paths[i]
+				for j := range p.Trace {
+					if isRec(&p.Trace[j]) {
+						nRec++
+						if j+1 < len(p.Trace) && isAcc(&p.Trace[j+1]) {
+							reach = true
+						}
+					}
+				}
+			}
+			c.Check(reach, "C09.returned-paths", fnName(id), fmt.Sprintf("glob arm: a child's reported paths reach the result (child removable=%v)", rec), P.Pos(id.Pos()), fmt.Sprintf("%d child visits on %d paths; accumulation reachable after a visit=%v", nRec, len(e.Paths), reach))
+			c.Floor(fmt.Sprintf("C09.returned-paths/glob-visits(removable=%v)", rec), nRec, 1)
+			// explicit child: the returned list is not dropped
+			e = at(map[string]bool{"ISBRANCH": true, "REC": rec, "RET": true, "GLOB": false}, map[string]int64{"SUBLEN": 1})
+			n := 0
+			for i := range e.Paths {
+				p := &e.Paths[i]
+				if !p.Has(isRec) || len(p.Rets) < 2 {
+					continue
+				}
+				n++
+				c.Check(!isNilConst(p.Rets[1].V), "C09.returned-paths", fnName(id), fmt.Sprintf("explicit child: the child's reported paths are returned (child removable=%v)", rec), P.Pos(id.Pos()), "returns "+Expr(p.Rets[1].V)+"; path: "+p.String())
+			}
+			c.Floor(fmt.Sprintf("C09.returned-paths/explicit-child(removable=%v)", rec), n, 1)
+		}
+	}
+	// walk of a root leaf
+	for _, name := range []string{"Walk", "WalkSorted"} {
+		f := P.Method("ctree", "Tree", name)
+		if f == nil {
+			c.Unresolved("C09.walk-root", "ctree.(*Tree)."+name)
+			continue
+		}
+		c.Analysed(fnName(f))
+		var vp ssa.Value
+		for _, p := range f.Params {
+			if isNamed(p.Type(), "ctree", "VisitFunc") {
+				vp = p
+			}
+		}
+		if vp == nil {
+			c.Unresolved("C09.walk-root", fnName(f)+" VisitFunc parameter")
+			continue
+		}
+		for _, empty := range []bool{false, true} {
+			a := &Atoms{Class: cls, Bool: map[string]bool{"ISBRANCH": false, "EMPTY": empty}, Int: map[string]int64{"NILLEN": 0}}
+			e := &PPA{Cond: a.Cond, MaxVisits: 2,
+				Inline: func(fr *Frame, call ssa.CallInstruction, callee *ssa.Function) bool {
+					return callee.Pkg == f.Pkg && (callee.Name() == "IsBranch" || callee.Name() == "isBranch")
+				},
+				Watch: func(ev *Ev) bool {
+					return strings.HasPrefix(ev.Label, "call:dyn:") && e2v(ev) == vp
+				}}
+			e.Run(f)
+			c.Paths += len(e.Paths)
+			c.Scen++
+			n := 0
+			for i := range e.Paths {
+				p := &e.Paths[i]
+				if p.End != "return" {
+					continue
+				}
+				n++
+				want := 1
+				if empty {
+					want = 0
+				}
+				ok := len(p.Trace) == want
+				if ok && want == 1 {
+					// the value handed over is the node's own value
+					args := p.Trace[0].Args
+					ok = len(args) == 3 && loadOfField(args[2].V, fLB)
+				}
+				c.Check(ok, "C09.walk-root", fnName(f), fmt.Sprintf("root leaf visited once (root empty=%v)", empty), P.Pos(f.Pos()), fmt.Sprintf("%d visitor calls; path: %s", len(p.Trace), p.String()))
+			}
+			c.Floor(fmt.Sprintf("C09.walk-root/%s(empty=%v)", name, empty), n, 1)
+		}
+	}
 	// root cleared only on the flag
 	for _, f := range []*ssa.Function{wd, dc} {
 		c.Analysed(fnName(f))
@@ -328,3 +438,6 @@ func runC09(c *Ctx) {
 		c.Floor("C09.path-copy/"+fnName(f), nRec, 1)
 	}
 }
+
+// e2v: the resolved callee value of a dynamic call event (through inlined frames).
+func e2v(ev *Ev) ssa.Value { return ev.Fn.V }
